@@ -144,6 +144,87 @@ func c07FillChunks(tier string) []SeqChunk {
 			}
 		}})
 	}
+	// one filler instance reused over a history of draws (what a live bar does): every call must still respect the
+	// allotted width and, for styles whose tip has a single frame, equal what a fresh instance draws for the same input
+	type draw struct {
+		w             int
+		total, cur, r int64
+	}
+	var alpha []draw
+	for _, w := range []int{0, 2, 3, 5, 9} {
+		for _, pr := range [][3]int64{{4, 0, 0}, {4, 2, 0}, {4, 2, 1}, {4, 4, 0}, {100, 1, 0}} {
+			alpha = append(alpha, draw{w, pr[0], pr[1], pr[2]})
+		}
+	}
+	depth := 2
+	if tier == "thorough" {
+		depth = 3
+	}
+	for i := 0; i < len(styles); i += per {
+		j := i + per
+		if j > len(styles) {
+			j = len(styles)
+		}
+		group := styles[i:j]
+		chunks = append(chunks, SeqChunk{Name: fmt.Sprintf("c07-reuse-%03d", i/per), Gen: func(env *SeqEnv) {
+			for _, st := range group {
+				single := !strings.Contains(st.name, `tip=["" ">"]`)
+				for _, rev := range []bool{false, true} {
+					c := st.mk()
+					if rev {
+						c = c.Reverse()
+					}
+					idx := make([]int, depth)
+					for {
+						hist := make([]draw, depth)
+						id := fmt.Sprintf("reuse %s rev=%v:", st.name, rev)
+						for k, a := range idx {
+							hist[k] = alpha[a]
+							id += fmt.Sprintf(" (w=%d %d/%d r=%d)", hist[k].w, hist[k].cur, hist[k].total, hist[k].r)
+						}
+						env.Case(id, func() (string, bool, string, string) {
+							filler := c.Build()
+							all := ""
+							for k, d := range hist {
+								var buf, ref bytes.Buffer
+								stat := decor.Statistics{AvailableWidth: d.w, Total: d.total, Current: d.cur, Refill: d.r, Completed: d.cur >= d.total}
+								if err := filler.Fill(&buf, stat); err != nil {
+									return all, true, "fill-error", err.Error()
+								}
+								out := buf.String()
+								all += out + "|"
+								if dw := dispWidth(out); out != "" && dw != d.w {
+									key := "reuse-width"
+									if dw > d.w {
+										key = "reuse-overflow"
+									}
+									return all, true, key, fmt.Sprintf("draw %d of a reused filler is %d columns wide, allotted %d: %+q", k, dw, d.w, out)
+								}
+								if single {
+									if err := c.Build().Fill(&ref, stat); err == nil && ref.String() != out {
+										return all, true, "reuse-differs", fmt.Sprintf("draw %d of a reused filler gives %+q, a fresh one %+q", k, out, ref.String())
+									}
+								}
+							}
+							return all, true, "", ""
+						})
+						k := depth - 1
+						for k >= 0 {
+							idx[k]++
+							if idx[k] < len(alpha) {
+								break
+							}
+							idx[k] = 0
+							k--
+						}
+						if k < 0 {
+							break
+						}
+					}
+				}
+			}
+		}})
+	}
 	// spinner
 	frames := [][]string{{"⠋", "⠙"}, {"界"}, {"", "x"}, {"ab", "c"}, {"é"}, {"́"}}
 	chunks = append(chunks, SeqChunk{Name: "c07-spinner", Gen: func(env *SeqEnv) {
